@@ -21,8 +21,9 @@ func sameValue(a, b ssa.Value) bool {
 // guardUp decides whether the program point (block in fn) is, on every call chain from an entry point,
 // dominated by the edge on which accountKeeper.GetAccount(val) returned nil. val is followed upwards
 // through parameters (bottom-up parameter mapping, depth ≤ 3).
-func (w *World) guardUp(fn *ssa.Function, point *ssa.BasicBlock, val ssa.Value, depth int, chain string) (bool, string) {
+func (w *World) guardUp(fn *ssa.Function, at ssa.Instruction, val ssa.Value, depth int, chain string) (bool, string) {
 	cg := w.CG()
+	point := at.Block()
 	// the guard: the edges on which GetAccount / HasAccount of the address of interest said "no such account"; through
 	// guardEdgesIn also the success of an error-returning helper into which that test was moved (`if err :=
 	// k.checkDestination(ctx, to); err != nil { return err }`)
@@ -59,6 +60,25 @@ func (w *World) guardUp(fn *ssa.Function, point *ssa.BasicBlock, val ssa.Value, 
 		}}
 	edges, _ := cg.guardEdgesIn(fn, Bind{}, spec, 0)
 	if MustPass(fn, edges, point) {
+		// the answer must still hold when the account is created: no bank transfer that credits the same address may run
+		// between the test and the creation (the bank creates a missing recipient account on its own: the module would
+		// then store its new account over that one)
+		for _, e := range w.effectsBelow(fn, func(x *Site) bool { return cg.Atom(x) == BankMove }, 2) {
+			ra := e.RootArgs()
+			var addrs []ssa.Value
+			for _, a := range ra {
+				if strings.HasSuffix(typeString(a.Type()), "types.AccAddress") {
+					addrs = append(addrs, a)
+				}
+			}
+			if len(addrs) == 0 || !sameValue(addrs[len(addrs)-1], val) {
+				continue // (the recipient is the last address argument of every bank transfer)
+			}
+			top := e.Top()
+			if top != at && instrReachableFrom(top, at) {
+				return false, chain + funcName(fn) + ": a bank transfer to the address (" + w.Pos(top.Pos()) + ") runs between the GetAccount(addr) == nil test and the creation of the account - the bank has created the account by then"
+			}
+		}
 		return true, chain + funcName(fn) + " (guard here)"
 	}
 	p, isParam := val.(*ssa.Parameter)
@@ -83,7 +103,7 @@ func (w *World) guardUp(fn *ssa.Function, point *ssa.BasicBlock, val ssa.Value, 
 		if cs.Common().IsInvoke() || idx >= len(args) {
 			return false, chain + funcName(fn) + ": dynamic call site"
 		}
-		ok, why := w.guardUp(cs.Caller, cs.Instr.Block(), args[idx], depth+1, chain+funcName(fn)+" <- ")
+		ok, why := w.guardUp(cs.Caller, cs.Instr, args[idx], depth+1, chain+funcName(fn)+" <- ")
 		if !ok {
 			return false, why
 		}
@@ -285,9 +305,9 @@ func checkC09(w *World, r *Report) {
 				for _, nc := range news {
 					a := nc.Common().Args
 					addr := a[len(a)-1]
-					ok, why := w.guardUp(nc.Parent(), nc.Block(), addr, 0, "")
+					ok, why := w.guardUp(nc.Parent(), nc, addr, 0, "")
 					if nc.Parent() == fn {
-						ok, why = w.guardUp(fn, s.Instr.Block(), addr, 0, "")
+						ok, why = w.guardUp(fn, s.Instr, addr, 0, "")
 					}
 					r.Check(ok, "C09.fresh", "SetAccount in "+where+": address not yet in use", pos, "GetAccount(addr)==nil edge dominates on every chain: "+why, "an existing account at this address can be overwritten: "+why)
 				}
